@@ -125,6 +125,7 @@ type convCase struct {
 	Shape Shape `json:"shape"`
 	Order []int `json:"order"`
 	Kind  int   `json:"kind"`
+	Trunk int   `json:"trunk,omitempty"` // trunk length when it is not TrunkLen
 }
 
 type convRef struct {
@@ -154,6 +155,9 @@ func judgeConv(env *Env, r *vx.Run, mode string, c convCase, blocks []*types.Blo
 	t := env.Fresh()
 	notes := deliver(t, blocks, c.Order, c.Kind)
 	desc := fmt.Sprintf("tree %s, delivery order %v, kind %d (refusals %v)", sh, c.Order, c.Kind, notes)
+	if c.Trunk != 0 {
+		desc = fmt.Sprintf("trunk of %d blocks, ", c.Trunk) + desc
+	}
 	if mode == "C26" {
 		if count {
 			r.Seen("distinct", fmt.Sprintf("n=%d refused=%d kind=%d lastseq=%d", n, len(notes), c.Kind, lastSeq(t)))
@@ -197,7 +201,27 @@ func judgeConv(env *Env, r *vx.Run, mode string, c convCase, blocks []*types.Blo
 
 // RunConverge is the body of C25 (mode "C25") and C26 (mode "C26").
 func RunConverge(r *vx.Run, mode string, maxN int, restartAll bool) {
-	env, err := NewEnv(nil)
+	item := 0
+	runConverge(r, mode, maxN, restartAll, TrunkLen, &item)
+	if _, replay := r.Replaying(); !replay {
+		// the same with a trunk one block shorter: the first level of every tree is the lowest height at which
+		// the node reorganises at all (finalised height + 12), so siblings there decide by weight and order
+		n := maxN
+		if n > 3 {
+			n = 3
+		}
+		runConverge(r, mode, n, restartAll, TrunkLen-1, &item)
+	}
+}
+
+func runConverge(r *vx.Run, mode string, maxN int, restartAll bool, trunk int, itemp *int) {
+	if raw, ok := r.Replaying(); ok {
+		var c convCase
+		if json.Unmarshal(raw, &c) == nil && c.Trunk != 0 {
+			trunk = c.Trunk
+		}
+	}
+	env, err := NewEnvLen(nil, trunk)
 	if err != nil {
 		fmt.Println("HARNESS-ERROR", err)
 		r.Note("harness error: %v", err)
@@ -234,7 +258,8 @@ func RunConverge(r *vx.Run, mode string, maxN int, restartAll bool) {
 		}
 		return
 	}
-	item := 0
+	item := *itemp
+	defer func() { *itemp = item }()
 	for n := 1; n <= maxN; n++ {
 		for _, sh := range Shapes(n) {
 			best := sh.Best()
@@ -259,7 +284,7 @@ func RunConverge(r *vx.Run, mode string, maxN int, restartAll bool) {
 			if mode == "C25" {
 				cr = reference(env, r, sh, blocks, txs)
 			}
-			r.Seen("trees", sh.String())
+			r.Seen("trees", fmt.Sprintf("%d|%s", trunk, sh))
 			perms := Perms(n)
 			for oi, order := range perms {
 				for variant := 0; variant < 2; variant++ {
@@ -271,11 +296,14 @@ func RunConverge(r *vx.Run, mode string, maxN int, restartAll bool) {
 							kind = vnode.Sync
 						}
 					}
-					c := convCase{sh, ord, kind}
+					c := convCase{Shape: sh, Order: ord, Kind: kind}
+					if trunk != TrunkLen {
+						c.Trunk = trunk
+					}
 					restart := restartAll || variant == 0
 					r.Count("executions", 1)
 					r.Count("transitions", int64(len(ord)))
-					r.Seen("states", fmt.Sprintf("%s|%v|%d", sh, ord, kind))
+					r.Seen("states", fmt.Sprintf("%d|%s|%v|%d", trunk, sh, ord, kind))
 					if fp, what := judgeConv(env, r, mode, c, blocks, txs, cr, restart, true); fp != "" {
 						// the same case must fail the same way every time before it is believed
 						r.Violate(fp, what, c, func() string {
